@@ -39,6 +39,20 @@ class NdArrayModel:
     pytype = 'ndarray'
 
     @staticmethod
+    def p_ndim(ex, o):
+        return len(o.f['shape'])
+
+    @staticmethod
+    def op_getitem(ex, o, k):
+        # image[..., ::-1]: the channel axis reversed -- a VIEW of the same buffer (negative stride), pixel values as after an RGB<->BGR swap
+        if isinstance(k, tuple) and len(k) == 2 and k[0] is Ellipsis and isinstance(k[1], slice) and k[1] == slice(None, None, -1) and len(o.f['shape']) == 3:
+            ex.__dict__.setdefault('np_calls', []).append(('channel-reversed view', o))
+            v = new_array(ex, o.f['shape'], CVT(o.f['pix'], z3.IntVal(CV['COLOR_RGB2BGR'])), o.f['flags'].f['writeable'], 'view', contig=False)
+            v.f['base'] = o
+            return v
+        raise Unsupported(f'ndarray[{k!r}]')
+
+    @staticmethod
     def m_copy(ex, o):
         ex.__dict__.setdefault('np_calls', []).append(('copy', o))
         return new_array(ex, o.f['shape'], o.f['pix'], True, 'copy')
@@ -117,6 +131,15 @@ class BlobModel:
     @staticmethod
     def op_truth(ex, o):
         return True
+
+    @staticmethod
+    def op_len(ex, o):
+        # the length of an encoded blob: some positive number (nothing relates the size of an encoding to the image it encodes)
+        if 'len' not in o.f:
+            n = fresh_int('blob_len')
+            ex.assume(n > 0)
+            o.f['len'] = n
+        return o.f['len']
 
 
 class BlobHeadModel:
